@@ -44,7 +44,13 @@ def main(argv):
         checker = f"cd {common.LEAN} && lake build JaxVerif.Properties.{pid} && lake env lean JaxVerif/Audit/{pid}.lean"
         if tier == "thorough":
             checker += f" && lake env leanchecker JaxVerif.Properties.{pid}"
-        return out.finish(mod.RULE, mod.TRUSTED, checker, getattr(mod, "extra_coverage", lambda: {})())
+        extra = dict(getattr(mod, "extra_coverage", lambda: {})())
+        # how many model answers were compared with the implementation's behaviour (driver requests of this run;
+        # a `batch` request counts once) and which theorems stood behind the claim
+        extra.setdefault("traces_validated_against_impl", drv.n)
+        extra.setdefault("theorems_checked", list(mod.THEOREMS))
+        extra.setdefault("generated_facts_from", common.REPO)
+        return out.finish(mod.RULE, mod.TRUSTED, checker, extra)
     except InfraError as e:
         print(f"INFRA-ERROR {pid}: {e}", file=sys.stderr)
         return 2
